@@ -156,3 +156,62 @@ def c05_gt_window(ctx, v):
             ok_path = True
         v.covers_total += 1
         v.covers_sat += 1 if ok_path else 0
+
+
+def c05_validate_gt_gate(ctx, v):
+    """Blockchain::validate (the reorganisation dispatcher): the golden-ticket sufficiency check is
+    asked about the candidate TIP (new_chain[0]: its parent hash and its own ticket flag), and when
+    it answers false no block is wound or unwound and the result is failure."""
+    from . import obl_c04
+    for n_new, n_old in ((1, 0), (2, 1), (3, 1)):
+        bound = 2 * (n_new + n_old) + 2
+        ex, args, valid = obl_c04._setup(ctx, n_new, n_old, bound)
+        chain = ex.deref_value(args[0])
+        bmap = chain.children[("f", ctx.field_index("Blockchain", "blocks"))]
+        tip = bmap.entries[0][2].v
+        tip_prev = tip.fields[ctx.field_index("Block", "previous_block_hash")]
+        tip_gt = tip.fields[ctx.field_index("Block", "has_golden_ticket")]
+        answer = ex.fresh_value("bool", "gt_count_valid")
+        inner = ex.on_call
+
+        def hook(ex_, st, callee, a, dty, inner=inner, answer=answer):
+            if re.search(r"Blockchain::is_golden_ticket_count_valid$", callee):
+                st.events.append(("gtcheck", callee, a, answer))
+                return answer
+            return inner(ex_, st, callee, a, dty)
+        ex.on_call = hook
+        outs, cell = L.run_async(ctx, ex, r"blockchain::<impl at [^>]*>::validate", args)
+        v.paths += len(outs)
+        seen = 0
+        for o in outs:
+            if o.kind in ("unsupported", "path-limit"):
+                return v.undecided("%s %s" % (o.kind, o.info))
+            g = [e for e in o.events if e[0] == "gtcheck"]
+            reorgs = [e for e in o.events if e[0] == "reorg"]
+            if not g:
+                if reorgs and ex.feasible(o.pc):
+                    v.queries += 1
+                    v.fail("|new|=%d |old|=%d: blocks are wound/unwound without asking the golden-ticket sufficiency check" % (n_new, n_old))
+                continue
+            a = g[0][2]
+            r, m = ex.model_for(o.pc, z3.Or(z3.Not(value_eq(ex, a[1], tip_prev)), a[2] != tip_gt))
+            v.queries += 1
+            if r == z3.sat:
+                v.fail("|new|=%d |old|=%d: the golden-ticket window is not anchored at the candidate tip (parent hash / ticket flag of new_chain[0])" % (n_new, n_old),
+                       dict(path=L.trace_text(o, 6)))
+            if reorgs:
+                r, m = ex.model_for(o.pc, z3.Not(answer))
+                v.queries += 1
+                if r == z3.sat:
+                    v.fail("|new|=%d |old|=%d: blocks are wound/unwound although the golden-ticket check answered false" % (n_new, n_old))
+            if o.kind == "return":
+                val = L.ready_value(ex, o)
+                okflag = val.fields[0] if isinstance(val, S.Agg) else None
+                if okflag is not None:
+                    r, m = ex.model_for(o.pc, z3.And(z3.Not(answer), okflag))
+                    v.queries += 1
+                    if r == z3.sat:
+                        v.fail("|new|=%d |old|=%d: success although the golden-ticket check answered false" % (n_new, n_old))
+            seen += 1
+        v.covers_total += 1
+        v.covers_sat += 1 if seen else 0
